@@ -375,7 +375,9 @@ func (c *Conn) reader(ctx context.Context) (_ MessageType, _ io.Reader, err erro
 		return 0, nil, net.ErrClosed
 	}
 
-	if !c.msgReader.fin {
+	if !c.msgReader.fin || c.msgReader.payloadLength > 0 {
+		// (also a final frame whose payload was not read to its end: the next
+		// header is behind it, the unread payload is not frames)
 		return 0, nil, errors.New("previous message not read to completion")
 	}
 
